@@ -267,6 +267,10 @@ func c09GenSet(r *Rng, id int) c09Set {
 	// data at all (nil, or an empty map), what it assigns must stay in that request
 	s.Files["selfpage.vuego"] = "---\nstep: 1\ntitle: Self\nuser:\n  name: fm-user\n---\n" +
 		`<h1>{{ title }}</h1><template :step="step + 1" :who="user.name"></template><p>Step {{ step }} {{ who }}</p><template :step="step + 1"></template><p>Step {{ step }}</p>`
+	// every set has a page WITHOUT front-matter that assigns at its root scope (directly and from a loop): rendered over the
+	// shared read-only data, what it assigns must land in the request's scope, never in the data handed in
+	s.Files["rootassign.vuego"] = `<section><template :seq="counter + 1" :who="user.name"></template><p>#{{ seq }} {{ who }}</p><template v-for="it in items"><template :last="it.name"></template></template><p>{{ last }}</p></section>`
+	s.Pages = append(s.Pages, "rootassign.vuego")
 	s.Frags = []string{"comp/card.vuego", "comp/item.vuego"}
 	return s
 }
